@@ -181,6 +181,7 @@ class Flux(AgentExecutingComponent) :
 
         elif ename == 'lm_failed':
             self._log.error('flux launch failed for %s', task_id)
+            task['exception'] = 'flux launch failed'
             state = rps.FAILED
             push  = False
 
@@ -197,6 +198,8 @@ class Flux(AgentExecutingComponent) :
         else:
             state = self._event_map.get(ename)
 
+            if state == rps.FAILED:
+                task['exception'] = 'flux exception: %s' % event.context
 
         if state is None:
             # no further state handling needed
@@ -288,8 +291,10 @@ class Flux(AgentExecutingComponent) :
                 parts[part_id][tid] = self._create_spec(task)
                 self._prof.prof('work_3', uid=task['uid'])
 
-            except:
+            except Exception as e:
                 self._log.exception('LM flux submit failed for %s', tid)
+                task['exception']        = repr(e)
+                task['exception_detail'] = '\n'.join(ru.get_exception_trace())
                 del self._tasks[tid]
                 self.advance_tasks(task, rps.FAILED, publish=True, push=False)
 
